@@ -1,5 +1,5 @@
 ---- MODULE MC_Method ----
 EXTENDS Method
-TS == {"A.Call", "A.Call2", "A.call", "A.callAll", "V.Call", "V.Get", "u.Call", "l.Call", "E.Own", "M.P", "M.Q", "Gint.M", "Gint.N", "Gstr.M", "GpA.M", "GpV.M"}
+TS == {"A.Call", "A.Call2", "A.call", "A.callAll", "V.Call", "V.Get", "u.Call", "l.Call", "E.Own", "M.P", "M.Q", "Gint.M", "Gint.N", "Wint.M", "Gstr.M", "GpA.M", "GpV.M"}
 BodyOf == [t \in TS |-> IF t \in {"GpA.M", "GpV.M"} THEN "G[ptr-shape].M" ELSE t]
 ====
